@@ -24,6 +24,7 @@ DEVS = {
     "DelTorn": "D_C09_DeleteVisibleHalfDone",
 }
 PROCS3 = ["p1", "p2", "p3"]
+MAX_TRIAGE = 400
 
 
 def mc_cfg(alpha, mode, devs, opsper, procs, maxobj=4, inv="Linearizable NoLostUpdate Exclusive NoStuck"):
@@ -142,6 +143,10 @@ def judge(ctx, path, tag, open_devs):
         ctx.sample(dict(kind="recorded history (%s), accepted=%s" % (tag, ids[0] in acc), lines=pretty(hs[ids[0]])))
     if not rej:
         return hs, acc
+    if len(rej) > MAX_TRIAGE:
+        # far more than the known findings ever produce: triage a bounded number, the run cannot pass anyway
+        ctx.extra["rejected_not_triaged"] = ctx.extra.get("rejected_not_triaged", 0) + len(rej) - MAX_TRIAGE
+        rej = rej[:MAX_TRIAGE]
     rp = os.path.join(ctx.work, "rejected-%s.ndjson" % tag)
     write_histories(rp, hs, rej)
     explained = asbuilt_check(ctx, rp, open_devs, "asbuilt-" + tag) if open_devs else {}
@@ -154,8 +159,8 @@ def judge(ctx, path, tag, open_devs):
             ctx.extra.setdefault("known_by_deviation", {})
             for d in best:
                 ctx.extra["known_by_deviation"][d] = ctx.extra["known_by_deviation"].get(d, 0) + 1
-                ctx.deviation(DEVS[d], "history not linearizable; reproduced by the as-built model with deviation(s) %s: %s" % (
-                    best, " | ".join(pretty(hs[h]))[:900]), dict(kind="history", file=keep, deviations=best))
+                ctx.deviation(DEVS[d], "recorded history is not linearizable; the as-built model reproduces it with deviation(s) %s (first: %s batch, history %d, mode %s, saved as %s)" % (
+                    "+".join(best), tag, h, hs[h][0].get("mode"), keep), dict(kind="history", file=keep, deviations=best, lines=pretty(hs[h])))
             if len(ctx.cov["samples"]) < 5:
                 ctx.sample(dict(kind="non-linearizable history explained by %s" % best, lines=pretty(hs[h])))
             if not best:
@@ -163,7 +168,7 @@ def judge(ctx, path, tag, open_devs):
                 raise vlib.Inconclusive("history %d of %s accepted by Trace_KeyOps without any deviation but rejected by Trace_Lin" % (h, tag))
         else:
             ctx.deviation(None, "history is not linearizable and not reproduced by the as-built model with the open findings %s: %s" % (
-                sorted(open_devs), " | ".join(pretty(hs[h]))[:1200]), dict(kind="history", file=keep))
+                sorted(open_devs), " | ".join(pretty(hs[h]))[:1200]), dict(kind="history", file=keep, lines=pretty(hs[h])))
     return hs, acc
 
 
@@ -177,6 +182,9 @@ def run(ctx):
         "in-memory swamps have no write interval: the four configurations of the property collapse to three (persistent/0, persistent/>0, memory)",
     ]
     open_devs = sorted(d for d, fid in DEVS.items() if ctx.is_known(fid))
+    if os.environ.get("VERIF_C09_OPEN_DEVS") is not None:
+        # development aid (verification of proposed fixes in a private tree): judge as if only these were open
+        open_devs = sorted(d for d in os.environ["VERIF_C09_OPEN_DEVS"].split(",") if d in DEVS)
     ctx.extra["open_deviations"] = open_devs
 
     # ---------------------------------------------------------------- replay of a saved history
@@ -230,6 +238,9 @@ def run(ctx):
     judged = {}
     for prof, tf in files:
         judged[prof] = judge(ctx, tf, prof, open_devs)
+
+    if ctx.extra.get("rejected_not_triaged") and not ctx.violations:
+        raise vlib.Inconclusive("%d rejected histories were not triaged" % ctx.extra["rejected_not_triaged"])
 
     # ---------------------------------------------------------------- collect the model-checking results
     for f in futs:
